@@ -41,7 +41,7 @@ def o11_3(tier):
     from stepup.core.enums import TARGET_FORBIDDEN_STATES
     from stepup.core.exceptions import GraphError
 
-    K, D = (4, 2) if tier == "quick" else (5, 3)
+    K, D = (4, 2) if tier == "quick" else (4, 3)
     configs = [([], [], K, True), (["a"], [], K, False), (["a"], [], 3, True), ([], ["d/"], K, True), (["d/x"], ["d/"], K, False)]
     res.bounds = (
         f"{K} node slots, {D} dependency edges; new target configurations (targets, directory targets, node slots, "
